@@ -32,7 +32,7 @@ def ringSummary (s : S) : String :=
 
 def placedObs (s : S) (r : Option Placed) : String :=
   match r with
-  | some p => s!"ok cell={p.cell} ts={p.kts} cl={if p.clamped then 1 else 0} {ringSummary s}"
+  | some p => s!"ok cell={p.cell} ts={p.kts} {ringSummary s}"
   | none => s!"drop {ringSummary s}"
 
 def parseMK? : String → Option MK
